@@ -31,7 +31,10 @@
  * D1b all strings of length 3 (quick) / 3..5 (thorough) over a 24-value alphabet; D2 all strings of length <= 6 over
  * {00,01,07,7F,80,FF}; D3 per seed encoding: every single-offset substitution by
  * {00,01,02,07,08,7F,80,81,FE,FF}, every truncation, double-offset substitution by {00,FF} at
- * offsets <= 16 apart (quick) / by {00,7F,80,FF} at every offset pair (thorough); D4 (thorough) splices prefix(A)+suffix(B) of every ordered seed pair of an entry point.
+ * offsets <= 16 apart (quick) / by {00,7F,80,FF} at every offset pair (thorough); D4 (thorough) splices prefix(A)+suffix(B) of every ordered seed pair of an entry point;
+ * D5 field-aware substitution: seeds parsed into numeric fields, each field and pairs of
+ * fields (quick: same entry/record; thorough: all pairs) set to boundary values and
+ * re-encoded at natural length (see the D5 section below).
  */
 #include <inttypes.h>
 #include <signal.h>
@@ -40,6 +43,7 @@
 #include <sys/time.h>
 #include <unistd.h>
 #include "drv.h"
+#include "rm_manifest.h" /* own varint codec, used by the D5 seed parsers */
 
 #include "util/bloom.h"
 #include "util/buffer.h"
@@ -1308,6 +1312,582 @@ dom_splice(const seed_t *a, const seed_t *c) {
   free(b);
 }
 
+
+/* ------------------------------------------------------------------ */
+/* D5: field-aware substitution                                       */
+/* ------------------------------------------------------------------ */
+/* Each seed is parsed by the small parsers below (own code: rm_varint*_get and plain
+ * little-endian loads, no lcdb decoder) into a token list: raw byte runs and numeric
+ * FIELDS.  A variant re-encodes the token list with one field, or a pair of fields, set
+ * to a value of a boundary list; a changed varint is written at its natural length, so
+ * the variant changes size and everything behind it shifts; an unchanged field keeps its
+ * original bytes.  Length fields "lie": the bytes they used to describe stay in place.
+ *
+ * Fields: block = shared/non_shared/value_length of every entry (group = entry), every
+ * restart offset and num_restarts (global); footer = the four handle varint64s (padding
+ * re-sized so the footer stays 48 bytes); handle = offset, size; filter block = every
+ * offset-array word, the array offset, base_lg; snappy = preamble and per element literal
+ * length / copy length / copy offset (group = element; copy fields are masked to the bit
+ * width of their element form); version edit = every tag, level, number and length field
+ * (group = record); write batch = sequence, count (global) and per record tag, key length,
+ * value length; log file = per physical record length and type (CRC recomputed over the
+ * variant so that the record is reachable, and again with the stale CRC); internal key =
+ * the 8-byte trailer. */
+
+enum { T_RAW, T_V32, T_V64, T_F32, T_F64, T_U8, T_U16, T_CRC, T_PADTO, T_SLIT, T_SC1, T_SC2, T_SC4 };
+
+typedef struct tok_s {
+  int kind;
+  uint64_t val, val2;   /* current values (val2: copy offset of a snappy copy element) */
+  uint64_t oval, oval2; /* values in the seed */
+  const uint8_t *raw;   /* the seed's own bytes for this token */
+  size_t rawlen;
+} tok_t;
+
+typedef struct fld_s {
+  int tok, sub; /* sub 0 = val, 1 = val2 */
+  int bits;     /* 8, 16, 32, 64: which boundary list */
+  int group;    /* entry / record / element index, -1 = none */
+  int global;   /* count / array / header field */
+  size_t end;   /* offset in the seed just past the field */
+} fld_t;
+
+typedef struct model_s {
+  tok_t *t;
+  int nt, capt;
+  fld_t *f;
+  int nf, capf;
+  size_t n; /* seed length */
+} model_t;
+
+static uint64_t n_d5_single, n_d5_pairs, n_d5_fields, n_d5_unparsed;
+
+static int
+m_tok(model_t *m, int kind, uint64_t val, uint64_t val2, const uint8_t *raw, size_t rawlen) {
+  tok_t *t;
+  if (m->nt == m->capt) {
+    m->capt = m->capt ? m->capt * 2 : 64;
+    m->t = realloc(m->t, (size_t)m->capt * sizeof(*m->t));
+  }
+  t = &m->t[m->nt];
+  t->kind = kind;
+  t->val = t->oval = val;
+  t->val2 = t->oval2 = val2;
+  t->raw = raw;
+  t->rawlen = rawlen;
+  return m->nt++;
+}
+
+static void
+m_fld(model_t *m, int tok, int sub, int bits, int group, int global, size_t end) {
+  fld_t *f;
+  if (m->nf == m->capf) {
+    m->capf = m->capf ? m->capf * 2 : 64;
+    m->f = realloc(m->f, (size_t)m->capf * sizeof(*m->f));
+  }
+  f = &m->f[m->nf++];
+  f->tok = tok;
+  f->sub = sub;
+  f->bits = bits;
+  f->group = group;
+  f->global = global;
+  f->end = end;
+}
+
+static void
+m_free(model_t *m) {
+  free(m->t);
+  free(m->f);
+  memset(m, 0, sizeof(*m));
+}
+
+static uint32_t le32(const uint8_t *p) { return (uint32_t)p[0] | (uint32_t)p[1] << 8 | (uint32_t)p[2] << 16 | (uint32_t)p[3] << 24; }
+static uint64_t le64(const uint8_t *p) { return (uint64_t)le32(p) | (uint64_t)le32(p + 4) << 32; }
+static void st32(uint8_t *p, uint32_t v) { p[0] = (uint8_t)v; p[1] = (uint8_t)(v >> 8); p[2] = (uint8_t)(v >> 16); p[3] = (uint8_t)(v >> 24); }
+
+/* numeric field helpers: add token + field, advance *off; 0 on malformed seed */
+static int
+m_v32(model_t *m, const uint8_t *p, size_t lim, size_t *off, int group, int global) {
+  uint32_t v;
+  size_t r = rm_varint32_get(p + *off, lim - *off, &v);
+  if (!r)
+    return 0;
+  m_fld(m, m_tok(m, T_V32, v, 0, p + *off, r), 0, 32, group, global, *off + r);
+  *off += r;
+  return 1;
+}
+
+static int
+m_v64(model_t *m, const uint8_t *p, size_t lim, size_t *off, int group, int global) {
+  uint64_t v;
+  size_t r = rm_varint64_get(p + *off, lim - *off, &v);
+  if (!r)
+    return 0;
+  m_fld(m, m_tok(m, T_V64, v, 0, p + *off, r), 0, 64, group, global, *off + r);
+  *off += r;
+  return 1;
+}
+
+static void
+m_f32(model_t *m, const uint8_t *p, size_t *off, int group, int global) {
+  m_fld(m, m_tok(m, T_F32, le32(p + *off), 0, p + *off, 4), 0, 32, group, global, *off + 4);
+  *off += 4;
+}
+
+static void
+m_raw(model_t *m, const uint8_t *p, size_t *off, size_t len) {
+  if (len)
+    m_tok(m, T_RAW, 0, 0, p + *off, len);
+  *off += len;
+}
+
+/* length-prefixed string: length field + the bytes it describes */
+static int
+m_lps(model_t *m, const uint8_t *p, size_t lim, size_t *off, int group) {
+  uint32_t len;
+  size_t r = rm_varint32_get(p + *off, lim - *off, &len);
+  if (!r || len > lim - *off - r)
+    return 0;
+  m_fld(m, m_tok(m, T_V32, len, 0, p + *off, r), 0, 32, group, 0, *off + r);
+  *off += r;
+  m_raw(m, p, off, len);
+  return 1;
+}
+
+static int
+parse_block(model_t *m, const uint8_t *p, size_t n) {
+  size_t nr, ro, off = 0, i;
+  int entry = 0;
+  if (n < 4)
+    return 0;
+  nr = le32(p + n - 4);
+  if (nr > (n - 4) / 4)
+    return 0;
+  ro = n - 4 - 4 * nr;
+  while (off < ro) {
+    uint64_t body;
+    if (!m_v32(m, p, ro, &off, entry, 0) || !m_v32(m, p, ro, &off, entry, 0) || !m_v32(m, p, ro, &off, entry, 0))
+      return 0;
+    body = m->t[m->nt - 2].val + m->t[m->nt - 1].val;
+    if (body > ro - off)
+      return 0;
+    m_raw(m, p, &off, (size_t)body);
+    entry++;
+  }
+  for (i = 0; i < nr; i++)
+    m_f32(m, p, &off, -1, 1);
+  m_f32(m, p, &off, -1, 1);
+  return off == n;
+}
+
+static int
+parse_footer(model_t *m, const uint8_t *p, size_t n) {
+  size_t off = 0;
+  int i;
+  if (n != 48)
+    return 0;
+  for (i = 0; i < 4; i++)
+    if (!m_v64(m, p, 40, &off, 0, 0))
+      return 0;
+  m_tok(m, T_PADTO, 40, 0, p + off, 40 - off);
+  off = 40;
+  m_raw(m, p, &off, 8);
+  return 1;
+}
+
+static int
+parse_handle(model_t *m, const uint8_t *p, size_t n) {
+  size_t off = 0;
+  if (!m_v64(m, p, n, &off, 0, 0) || !m_v64(m, p, n, &off, 0, 0))
+    return 0;
+  m_raw(m, p, &off, n - off);
+  return 1;
+}
+
+static int
+parse_filter(model_t *m, const uint8_t *p, size_t n) {
+  size_t ao, off = 0, num, i;
+  if (n < 5)
+    return 0;
+  ao = le32(p + n - 5);
+  if (ao > n - 5)
+    return 0;
+  num = (n - 5 - ao) / 4;
+  m_raw(m, p, &off, ao);
+  for (i = 0; i < num; i++)
+    m_f32(m, p, &off, 0, 1);
+  m_raw(m, p, &off, n - 5 - off);
+  m_f32(m, p, &off, 0, 1);
+  m_fld(m, m_tok(m, T_U8, p[off], 0, p + off, 1), 0, 8, 0, 1, off + 1);
+  return 1;
+}
+
+static int
+parse_snappy(model_t *m, const uint8_t *p, size_t n) {
+  size_t off = 0;
+  int el = 0;
+  if (!m_v32(m, p, n, &off, -1, 1))
+    return 0;
+  while (off < n) {
+    unsigned t = p[off];
+    int tk;
+    switch (t & 3) {
+      case 0: {
+        unsigned x = t >> 2, extra = x < 60 ? 0 : x - 59, i;
+        uint64_t nm1 = x;
+        if (n - off < 1 + extra)
+          return 0;
+        if (extra) {
+          nm1 = 0;
+          for (i = 0; i < extra; i++)
+            nm1 |= (uint64_t)p[off + 1 + i] << (8 * i);
+        }
+        if (nm1 + 1 > n - off - 1 - extra)
+          return 0;
+        tk = m_tok(m, T_SLIT, nm1 + 1, 0, p + off, 1 + extra);
+        m_fld(m, tk, 0, 32, el, 0, off + 1 + extra);
+        off += 1 + extra;
+        m_raw(m, p, &off, (size_t)(nm1 + 1));
+        break;
+      }
+      case 1:
+        if (n - off < 2)
+          return 0;
+        tk = m_tok(m, T_SC1, 4 + ((t >> 2) & 7), ((t & 0xe0u) << 3) | p[off + 1], p + off, 2);
+        m_fld(m, tk, 0, 32, el, 0, off + 2);
+        m_fld(m, tk, 1, 32, el, 0, off + 2);
+        off += 2;
+        break;
+      case 2:
+        if (n - off < 3)
+          return 0;
+        tk = m_tok(m, T_SC2, 1 + (t >> 2), (uint64_t)p[off + 1] | (uint64_t)p[off + 2] << 8, p + off, 3);
+        m_fld(m, tk, 0, 32, el, 0, off + 3);
+        m_fld(m, tk, 1, 32, el, 0, off + 3);
+        off += 3;
+        break;
+      default:
+        if (n - off < 5)
+          return 0;
+        tk = m_tok(m, T_SC4, 1 + (t >> 2), le32(p + off + 1), p + off, 5);
+        m_fld(m, tk, 0, 32, el, 0, off + 5);
+        m_fld(m, tk, 1, 32, el, 0, off + 5);
+        off += 5;
+        break;
+    }
+    el++;
+  }
+  return 1;
+}
+
+static int
+parse_edit(model_t *m, const uint8_t *p, size_t n) {
+  size_t off = 0;
+  int rec = 0;
+  while (off < n) {
+    uint64_t tag;
+    if (!m_v32(m, p, n, &off, rec, 0))
+      return 0;
+    tag = m->t[m->nt - 1].val;
+    switch (tag) {
+      case 1:
+        if (!m_lps(m, p, n, &off, rec))
+          return 0;
+        break;
+      case 2: case 3: case 4: case 9:
+        if (!m_v64(m, p, n, &off, rec, 0))
+          return 0;
+        break;
+      case 5:
+        if (!m_v32(m, p, n, &off, rec, 0) || !m_lps(m, p, n, &off, rec))
+          return 0;
+        break;
+      case 6:
+        if (!m_v32(m, p, n, &off, rec, 0) || !m_v64(m, p, n, &off, rec, 0))
+          return 0;
+        break;
+      case 7:
+        if (!m_v32(m, p, n, &off, rec, 0) || !m_v64(m, p, n, &off, rec, 0) || !m_v64(m, p, n, &off, rec, 0) ||
+            !m_lps(m, p, n, &off, rec) || !m_lps(m, p, n, &off, rec))
+          return 0;
+        break;
+      default:
+        return 0;
+    }
+    rec++;
+  }
+  return 1;
+}
+
+static int
+parse_batch(model_t *m, const uint8_t *p, size_t n) {
+  size_t off = 0;
+  int rec = 0;
+  if (n < 12)
+    return 0;
+  m_fld(m, m_tok(m, T_F64, le64(p), 0, p, 8), 0, 64, -1, 1, 8);
+  off = 8;
+  m_f32(m, p, &off, -1, 1);
+  while (off < n) {
+    unsigned tag = p[off];
+    m_fld(m, m_tok(m, T_U8, tag, 0, p + off, 1), 0, 8, rec, 0, off + 1);
+    off++;
+    if (tag > 1 || !m_lps(m, p, n, &off, rec))
+      return 0;
+    if (tag == 1 && !m_lps(m, p, n, &off, rec))
+      return 0;
+    rec++;
+  }
+  return 1;
+}
+
+static int
+parse_log(model_t *m, const uint8_t *p, size_t n) {
+  size_t off = 0;
+  int rec = 0;
+  while (n - off >= 7) {
+    size_t len = (size_t)p[off + 4] | (size_t)p[off + 5] << 8;
+    if (len > n - off - 7)
+      return 0;
+    m_tok(m, T_CRC, 0, 0, p + off, 4);
+    m_fld(m, m_tok(m, T_U16, len, 0, p + off + 4, 2), 0, 16, rec, 0, off + 6);
+    m_fld(m, m_tok(m, T_U8, p[off + 6], 0, p + off + 6, 1), 0, 8, rec, 0, off + 7);
+    off += 7;
+    m_raw(m, p, &off, len);
+    rec++;
+  }
+  m_raw(m, p, &off, n - off);
+  return 1;
+}
+
+static int
+parse_pkey(model_t *m, const uint8_t *p, size_t n) {
+  size_t off = 0;
+  if (n < 8)
+    return 0;
+  m_raw(m, p, &off, n - 8);
+  m_fld(m, m_tok(m, T_F64, le64(p + off), 0, p + off, 8), 0, 64, 0, 0, n);
+  return 1;
+}
+
+static int
+parse_seed(model_t *m, const seed_t *sd) {
+  memset(m, 0, sizeof(*m));
+  m->n = sd->n;
+  switch (sd->ep) {
+    case EP_BLK: case EP_BLKI: return parse_block(m, sd->p, sd->n);
+    case EP_FOOT: return parse_footer(m, sd->p, sd->n);
+    case EP_HAND: return parse_handle(m, sd->p, sd->n);
+    case EP_FILT: return parse_filter(m, sd->p, sd->n);
+    case EP_SNAP: return parse_snappy(m, sd->p, sd->n);
+    case EP_EDIT: return parse_edit(m, sd->p, sd->n);
+    case EP_BAT: return parse_batch(m, sd->p, sd->n);
+    case EP_LOG: case EP_LOGNC: return parse_log(m, sd->p, sd->n);
+    case EP_PKEY: return parse_pkey(m, sd->p, sd->n);
+    default: return -1; /* no numeric fields (file names) */
+  }
+}
+
+/* re-encode; returns the length.  fixcrc: recompute every log record CRC over the variant
+ * (last record first: a lying length makes a record cover the headers behind it) */
+static size_t
+m_encode(const model_t *m, uint8_t *out, int fixcrc) {
+  size_t o = 0, crcpos[64];
+  int i, ncrc = 0;
+  for (i = 0; i < m->nt; i++) {
+    const tok_t *t = &m->t[i];
+    if (t->kind == T_PADTO) {
+      while (o < t->val)
+        out[o++] = 0;
+      continue;
+    }
+    if (t->kind == T_CRC && ncrc < 64)
+      crcpos[ncrc++] = o;
+    if (t->kind == T_RAW || t->kind == T_CRC || (t->val == t->oval && t->val2 == t->oval2)) {
+      memcpy(out + o, t->raw, t->rawlen);
+      o += t->rawlen;
+      continue;
+    }
+    switch (t->kind) {
+      case T_V32: o += rm_varint32_put(out + o, (uint32_t)t->val); break;
+      case T_V64: o += rm_varint64_put(out + o, t->val); break;
+      case T_F32: st32(out + o, (uint32_t)t->val); o += 4; break;
+      case T_F64: st32(out + o, (uint32_t)t->val); st32(out + o + 4, (uint32_t)(t->val >> 32)); o += 8; break;
+      case T_U8: out[o++] = (uint8_t)t->val; break;
+      case T_U16: out[o++] = (uint8_t)t->val; out[o++] = (uint8_t)(t->val >> 8); break;
+      case T_SLIT: {
+        uint32_t nm1 = (uint32_t)t->val - 1;
+        if (nm1 < 60) {
+          out[o++] = (uint8_t)(nm1 << 2);
+        } else {
+          int nb = nm1 < (1u << 8) ? 1 : nm1 < (1u << 16) ? 2 : nm1 < (1u << 24) ? 3 : 4, k;
+          out[o++] = (uint8_t)((59 + nb) << 2);
+          for (k = 0; k < nb; k++)
+            out[o++] = (uint8_t)(nm1 >> (8 * k));
+        }
+        break;
+      }
+      case T_SC1:
+        out[o++] = (uint8_t)((((t->val2 >> 8) & 7) << 5) | (((t->val - 4) & 7) << 2) | 1);
+        out[o++] = (uint8_t)t->val2;
+        break;
+      case T_SC2:
+        out[o++] = (uint8_t)((((t->val - 1) & 63) << 2) | 2);
+        out[o++] = (uint8_t)t->val2;
+        out[o++] = (uint8_t)(t->val2 >> 8);
+        break;
+      case T_SC4:
+        out[o++] = (uint8_t)((((t->val - 1) & 63) << 2) | 3);
+        st32(out + o, (uint32_t)t->val2);
+        o += 4;
+        break;
+    }
+  }
+  if (fixcrc) {
+    for (i = ncrc - 1; i >= 0; i--) {
+      size_t at = crcpos[i], len;
+      if (o - at < 7)
+        continue;
+      len = (size_t)out[at + 4] | (size_t)out[at + 5] << 8;
+      if (len <= o - at - 7)
+        st32(out + at, ldb_crc32c_mask(ldb_crc32c_extend(0, out + at + 6, 1 + len)));
+    }
+  }
+  return o;
+}
+
+static const uint64_t B32[] = {0, 1, 2, 4, 8, 16, 0x7f, 0x80, 0x3fff, 0x4000, 0x1fffff, 0x200000, 0xfffffff, 0x10000000,
+                               0x7fffffff, 0x80000000u, 0xfffffff0u, 0xfffffff8u, 0xfffffffcu, 0xfffffffeu, 0xffffffffu};
+static const uint64_t B64X[] = {UINT64_C(1) << 32, (UINT64_C(1) << 32) - 1, (UINT64_C(1) << 32) + 1, UINT64_C(1) << 63,
+                                UINT64_MAX, UINT64_MAX - 7, UINT64_MAX - 1, (UINT64_C(1) << 63) - 1};
+static const uint64_t B16[] = {0, 1, 2, 4, 8, 16, 0x7f, 0x80, 0xff, 0x100, 0x3fff, 0x4000, 0x7ff0, 0x7ff9, 0x7fff, 0x8000,
+                               0xfff0, 0xfff8, 0xfffc, 0xfffe, 0xffff};
+static const uint64_t B8[] = {0, 1, 2, 3, 4, 5, 6, 7, 8, 9, 10, 11, 12, 16, 0x3f, 0x40, 0x7f, 0x80, 0x81, 0xfe, 0xff};
+#define MAXVALS 48
+
+static int
+field_values(const model_t *m, const fld_t *f, uint64_t *out) {
+  const uint64_t *base = f->bits == 8 ? B8 : f->bits == 16 ? B16 : B32;
+  int nb = f->bits == 8 ? (int)(sizeof(B8) / 8) : f->bits == 16 ? (int)(sizeof(B16) / 8) : (int)(sizeof(B32) / 8);
+  uint64_t mask = f->bits == 64 ? UINT64_MAX : (UINT64_C(1) << f->bits) - 1;
+  uint64_t rem = m->n - f->end, ctx[9];
+  int n = 0, nc = 0, i, j, k;
+  for (i = 0; i < nb; i++)
+    out[n++] = base[i];
+  if (f->bits == 64)
+    for (i = 0; i < (int)(sizeof(B64X) / 8); i++)
+      out[n++] = B64X[i];
+  /* contextual: seed length - k, remaining bytes +- k */
+  for (k = 0; k <= 2; k++) {
+    ctx[nc++] = (uint64_t)m->n - (uint64_t)k;
+    ctx[nc++] = rem - (uint64_t)k;
+    ctx[nc++] = rem + (uint64_t)k;
+  }
+  for (i = 0; i < nc; i++) {
+    uint64_t v = ctx[i] & mask;
+    for (j = 0; j < n; j++)
+      if (out[j] == v)
+        break;
+    if (j == n)
+      out[n++] = v;
+  }
+  return n;
+}
+
+static uint64_t fld_get(const model_t *m, const fld_t *f) { return f->sub ? m->t[f->tok].val2 : m->t[f->tok].val; }
+static uint64_t fld_orig(const model_t *m, const fld_t *f) { return f->sub ? m->t[f->tok].oval2 : m->t[f->tok].oval; }
+static void
+fld_set(model_t *m, const fld_t *f, uint64_t v) {
+  if (f->sub)
+    m->t[f->tok].val2 = v;
+  else
+    m->t[f->tok].val = v;
+}
+
+static int
+pair_allowed(int ep, const fld_t *a, const fld_t *b) {
+  if (a->tok == b->tok && a->sub == b->sub)
+    return 0;
+  if (drv.thorough)
+    return 1;
+  /* quick: fields of the same entry / record, for the block, batch, edit, footer and handle seeds */
+  if (!(ep == EP_BLK || ep == EP_BLKI || ep == EP_BAT || ep == EP_EDIT || ep == EP_FOOT || ep == EP_HAND))
+    return 0;
+  return a->group >= 0 && a->group == b->group;
+}
+
+static void
+dom_fields(const seed_t *sd, int idx) {
+  model_t m;
+  uint8_t *b;
+  uint64_t v1[MAXVALS], v2[MAXVALS];
+  int rc, i, j, a, c, n1, n2, fix, nfix;
+  size_t len;
+  rc = parse_seed(&m, sd);
+  if (rc < 0) {
+    m_free(&m);
+    return;
+  }
+  b = malloc(sd->n + 128);
+  if (rc == 0 || (len = m_encode(&m, b, 0)) != sd->n || memcmp(b, sd->p, sd->n) != 0)
+    vh_die("c18_decoders: D5 parser does not reproduce seed %d (%s, ep %s)", idx, sd->what, EPN[sd->ep]);
+  if (drv.shard == 0)
+    n_d5_fields += (uint64_t)m.nf;
+  (void)fld_get;
+  /* log files: every variant with recomputed CRCs (record reachable) and with the stale CRCs */
+  nfix = (sd->ep == EP_LOG || sd->ep == EP_LOGNC) ? 2 : 1;
+  for (fix = nfix - 1; fix >= 0; fix--) {
+    for (i = 0; i < m.nf; i++) {
+      const fld_t *f = &m.f[i];
+      uint64_t o1 = fld_orig(&m, f);
+      n1 = field_values(&m, f, v1);
+      for (a = 0; a < n1; a++) {
+        if (v1[a] == o1)
+          continue;
+        fld_set(&m, f, v1[a]);
+        len = m_encode(&m, b, fix);
+        if (run_case(sd->ep, b, len) >= 0)
+          n_d5_single++;
+      }
+      fld_set(&m, f, o1);
+      if (stop_now())
+        goto out;
+    }
+    for (i = 0; i < m.nf; i++) {
+      const fld_t *f = &m.f[i];
+      uint64_t o1 = fld_orig(&m, f);
+      n1 = field_values(&m, f, v1);
+      for (j = i + 1; j < m.nf; j++) {
+        const fld_t *g = &m.f[j];
+        uint64_t o2 = fld_orig(&m, g);
+        if (!pair_allowed(sd->ep, f, g))
+          continue;
+        n2 = field_values(&m, g, v2);
+        for (a = 0; a < n1; a++) {
+          if (v1[a] == o1)
+            continue;
+          fld_set(&m, f, v1[a]);
+          for (c = 0; c < n2; c++) {
+            if (v2[c] == o2)
+              continue;
+            fld_set(&m, g, v2[c]);
+            len = m_encode(&m, b, fix);
+            if (run_case(sd->ep, b, len) >= 0)
+              n_d5_pairs++;
+          }
+          fld_set(&m, g, o2);
+        }
+        fld_set(&m, f, o1);
+        if (stop_now())
+          goto out;
+      }
+    }
+  }
+out:
+  free(b);
+  m_free(&m);
+}
+
 /* ------------------------------------------------------------------ */
 
 static int
@@ -1348,7 +1928,7 @@ main(int argc, char **argv) {
   vh_buf_t res;
   int e, i, maxlen;
   const char *only;
-  double t0, t1, t2, t3, t4, t_ep[NEP];
+  double t0, t1, t2, t3, t4, t5, ts, t_ep[NEP];
   drv_init(argc, argv);
   memset(t_ep, 0, sizeof(t_ep));
   ldb_ikc_init(&ikc, ldb_bytewise_comparator);
@@ -1371,6 +1951,13 @@ main(int argc, char **argv) {
   for (i = 0; i < nseeds && !stop_now(); i++)
     if (!only || strcmp(only, EPN[seeds[i].ep]) == 0)
       dom_seed(&seeds[i], i);
+  t1 = drv_elapsed();
+  ts = t1 - t0;
+  /* D5: field-aware substitution */
+  for (i = 0; i < nseeds && !stop_now(); i++)
+    if (!only || strcmp(only, EPN[seeds[i].ep]) == 0)
+      dom_fields(&seeds[i], i);
+  t5 = drv_elapsed() - t1;
   t1 = drv_elapsed();
   for (e = 0; e < NEP && !stop_now(); e++) {
     if (only && strcmp(only, EPN[e]) != 0)
@@ -1413,6 +2000,18 @@ main(int argc, char **argv) {
            drv.thorough ? "{00,7F,80,FF}^2 at every offset pair" : "{00,FF}^2 at offset pairs <= 16 apart",
            drv.thorough ? "; D4 splices prefix(A)+suffix(B) for every ordered pair of seeds of one entry point" : "", ALLOC_CAP >> 20, n_enomem);
 
+  drv_note("D5 field-aware substitution: every seed parsed by the driver's own parsers into numeric fields (block: "
+           "shared/non_shared/value_length per entry, restart offsets, num_restarts; footer/handle: handle varint64s; "
+           "filter: offset array, array offset, base_lg; snappy: preamble, literal length, copy length/offset per "
+           "element; edit: every tag/level/number/length; batch: sequence, count, per record tag and lengths; log: "
+           "record length and type with recomputed AND stale CRC; pkey: trailer) and re-encoded at natural varint "
+           "length with (a) each field and (b) %s set to each of {0,1,2,4,8,16,7f,80,3fff,4000,1fffff,200000,fffffff,"
+           "10000000,7fffffff,80000000,fffffff0,fffffff8,fffffffc,fffffffe,ffffffff, seed length-k, remaining bytes+-k "
+           "(k<=2)} (64-bit fields also 2^32, 2^32+-1, 2^63, 2^63-1, 2^64-1, 2^64-2, 2^64-8; byte and 16-bit fields "
+           "their own lists), so sums wrapping at 2^32/2^64 are included",
+           drv.thorough ? "every pair of fields of the seed"
+                        : "every pair of fields of one entry/record (block, batch, edit, footer, handle seeds)");
+
   vb_init(&res);
   vb_printf(&res, "\"evaluations\":%" PRIu64 ",\"exhaustive\":%s,\"d1_all_strings\":%" PRIu64 ",\"d1b_alphabet24\":%" PRIu64 ",\"d2_alphabet\":%" PRIu64
             ",\"d3_single\":%" PRIu64 ",\"d3_trunc\":%" PRIu64 ",\"d3_double\":%" PRIu64 ",\"d4_splice\":%" PRIu64
@@ -1420,7 +2019,9 @@ main(int argc, char **argv) {
             n_eval, exhaustive ? "true" : "false", n_d1, n_d1b, n_d2, n_single, n_trunc, n_double, n_splice,
             drv.shard == 0 ? nseeds : 0, drv.shard == 0 ? n_seed_rejected : (uint64_t)0, n_enomem);
   vb_printf(&res, ",\"max_t_seeds_s\":%.2f,\"max_t_alphabet_s\":%.2f,\"max_t_allstrings_s\":%.2f,\"max_t_splice_s\":%.2f",
-            t1 - t0, t2 - t1, t3 - t2, t4 - t3);
+            ts, t2 - t1, t3 - t2, t4 - t3);
+  vb_printf(&res, ",\"d5_single\":%" PRIu64 ",\"d5_pairs\":%" PRIu64 ",\"d5_fields\":%" PRIu64 ",\"max_t_fields_s\":%.2f",
+            n_d5_single, n_d5_pairs, n_d5_fields, t5);
   for (e = 0; e < NEP; e++)
     vb_printf(&res, ",\"max_t_d1_%s_s\":%.2f", EPN[e], t_ep[e]);
   for (e = 0; e < NEP; e++)
